@@ -1,13 +1,15 @@
 #!/bin/sh
 # seeded_matrix.sh [quick|thorough]: apply every kept seeded change to /repo in turn, run the
-# quick check of the property it breaks, undo it, and print one line per change.
-# Expected: every line says CAUGHT. (About 1.5 min per change: each one rebuilds jawk.)
+# check(s) named in its meta.json (check_with; normally the property it breaks), undo it,
+# and print one line per change. Expected: every line says CAUGHT.
+# (About 1.5 min per change: each one rebuilds jawk.)
 cd /verif || exit 2
 for d in seeded/*/; do
-    n=$(basename "$d"); id=${n%%-*}
-    out=$(TIER=${1:-quick} ./tools/try_seeded.sh "$d/patch.diff" "$id" 2>&1)
-    if echo "$out" | grep -q "^VIOLATION property=$id"; then
-        echo "$n CAUGHT $(echo "$out" | grep -o 'rule=[A-Za-z0-9.-]*' | head -1)"
+    n=$(basename "$d")
+    ids=$(python3 -c "import json;print(' '.join(json.load(open('$d/meta.json'))['check_with']))")
+    out=$(TIER=${1:-quick} ./tools/try_seeded.sh "$d/patch.diff" $ids 2>&1)
+    if echo "$out" | grep -q "^VIOLATION property="; then
+        echo "$n CAUGHT by $(echo "$out" | grep -o 'rule=[A-Za-z0-9.-]*' | head -1)"
     else
         echo "$n MISSED $(echo "$out" | tail -2 | tr '\n' ' ')"
     fi
